@@ -203,3 +203,55 @@ def check_go_decision(ctx, hg2, rule):
     ctx.check(okp, rule, "MGM2: local go iff the pair gain is strictly best among the other neighbours (or there is none); the same decision is sent to the partner", hg2,
               cm[0] if cm else hg2.node, "_can_move and the go message must carry the same decision, taken against all neighbours but the partner; "
               "a pair that announced its gain and then does not go ends the cycle without a move while it blocked its neighbours")
+
+
+def check_mgm_costmodel(ctx, cb, hv, rule):
+    """MGM: the candidate side (_compute_best_value) and the current side (_handle_value_message) of the gain use one cost model"""
+    lam = [n for n in ast.walk(cb.node) if isinstance(n, ast.Lambda)]
+    okl = len(lam) == 1
+    if okl:
+        x = lam[0].args.args[0].arg
+        t = norm(lam[0].body)
+        okl = f"f({x}) for f in reduced_cs" in t and f"self.variable.cost_for_val({x})" in t and isinstance(lam[0].body, ast.BinOp) and isinstance(lam[0].body.op, ast.Add)
+    ctx.check(okl, rule, "MGM: candidate cost = constraints at the candidate + own variable cost at the candidate", cb, lam[0] if lam else cb.node,
+              "the function optimised over the domain must include the variable's own cost for the candidate value")
+    own_cur = [c for c in ast.walk(cb.node) if isinstance(c, ast.Call) and norm(c.func).endswith("cost_for_val") and norm(c.args[0]) == "self.current_value"]
+    ctx.check(not own_cur, rule, "MGM: no own cost at the current value on the candidate side", cb, own_cur[0] if own_cur else cb.node,
+              "the best cost must not contain the variable's cost for its *current* value")
+    for f, what in ((cb, "candidate"), (hv, "current")):
+        t = norm(f.node)
+        ok = "for c in self.utilities" in t and "filter_assignment_dict(self._neighbors_values, c.dimensions)" in t and "c.slice(asgt)" in t \
+            and "cost_for_val(self._neighbors_values[" in t
+        ctx.check(ok, rule, f"MGM: {what} side = all constraints sliced on neighbours' values + neighbours' variable costs", f, f.node,
+                  "both sides of the gain must be built from the same constraint set and the same neighbour terms")
+    own = [c for c in ast.walk(hv.node) if isinstance(c, ast.Call) and norm(c.func).endswith("cost_for_val") and norm(c.args[0]) == "self.current_value"]
+    ctx.check(len(own) == 1, rule, "MGM: current side includes the own cost at the current value", hv, own[0] if own else hv.node, "")
+
+
+
+def check_offer_slots(ctx, repo, rule):
+    """MGM2: _find_best_offer lists (partner value, own value, partner name); the receiver of the offers unpacks them in those roles"""
+    cls = repo.cls(MGM2, "Mgm2Computation")
+    fb = cls.methods["_find_best_offer"]
+    ho = cls.methods["_handle_offer_messages"]
+    ctx.touch(fb)
+    ctx.touch(ho)
+    upd = [c for c in ast.walk(fb.node) if isinstance(c, ast.Call) and norm(c.func) == "partial_asgt.update" and c.args and isinstance(c.args[0], ast.Dict)]
+    roles = {}
+    if len(upd) == 1:
+        for k, v in zip(upd[0].args[0].keys, upd[0].args[0].values):
+            roles[norm(v)] = "own" if norm(k) == "self.variable.name" else "partner"
+    tuples = [t for t in ast.walk(fb.node) if isinstance(t, ast.Tuple) and len(t.elts) == 3 and isinstance(t.ctx, ast.Load) and all(isinstance(e, ast.Name) for e in t.elts)
+              and any(norm(e) in roles for e in t.elts)]
+    shape = {tuple(roles.get(norm(e), "name") for e in t.elts) for t in tuples}
+    ok = len(upd) == 1 and len(tuples) >= 2 and shape == {("partner", "own", "name")}
+    ctx.check(ok, rule, "MGM2: best offers are listed as (partner value, own value, partner name)", fb, tuples[0] if tuples else fb.node, f"found {sorted(shape)}")
+    un = [a for a in ast.walk(ho.node) if isinstance(a, ast.Assign) and isinstance(a.targets[0], ast.Tuple) and len(a.targets[0].elts) == 3 and "best_offers" in norm(a.value)]
+    ok = len(un) == 1
+    if ok:
+        a, b, c = [norm(e) for e in un[0].targets[0].elts]
+        t = norm(ho.node)
+        ok = b == "self._potential_value" and f"self._neighbor_var({c})" in t and any(isinstance(m, ast.Call) and call_name(m) == "Mgm2ResponseMessage" and len(m.args) >= 2 and norm(m.args[1]) == a for m in ast.walk(ho.node))
+    ctx.check(ok, rule, "MGM2: the accepted offer gives the partner its value (sent back) and this variable its own (kept as potential value)", ho, un[0] if un else ho.node,
+              "unpacked in the offerer's order the two computations exchange their values: the pair announces the coordinated gain, blocks its neighbours, and moves onto "
+              "another assignment (possibly the current one) than the one the gain was computed for")
